@@ -125,7 +125,26 @@ inline bool deliver_S(Rng& r, uint64_t idx)
     if (idle.empty()) return;
     ++run.injected;
     run.note('i', p);
-    do_log(*idle[r.below(idle.size())]);
+    SW& iw = *idle[r.below(idle.size())];
+    do_log(iw);
+    if (!kBounded && p == qv::UQ_OLD_EMPTY_SEEN && r.chance(1, 2) && !iw.w->parked())
+    {
+      // ... and, still inside the window between the consumer's "old node is empty" and its look at `next`, the same
+      // thread makes its queue switch nodes: a shrink request, or a statement larger than the current node
+      if (r.chance(1, 2))
+      {
+        uint64_t c = r.pick<uint64_t>({64, 256, 1024});
+        run.run_on(iw, [c] { Fe::shrink_thread_local_queue(c); }, "shrink");
+        ++shrinks;
+      }
+      else
+      {
+        uint16_t li = static_cast<uint16_t>(r.below(w.loggers.size()));
+        uint32_t const len = static_cast<uint32_t>(std::min<size_t>(kMaxPayload, 1200 + r.below(3000))); // larger than the initial node
+        SW* sp = &iw;
+        run.run_on(iw, [wp, sp, li, len] { issue_std(sp->issues, wp->loggers[li].lg, li, quill::LogLevel::Info, sp->tid, sp->seq++, len); }, "log-big");
+      }
+    }
   };
   for (uint32_t st = 0; st < steps && !run.failed; ++st)
   {
